@@ -26,8 +26,17 @@ RSParser::RSParser(std::optional<ErrorReporter> reporter)
   : state{ reporter }, impl{ std::make_unique<RSParserImpl>(&state) } {}
 
 RSParser::~RSParser() = default;
-RSParser::RSParser(RSParser&& rhs) noexcept = default;
-RSParser& RSParser::operator=(RSParser&& rhs) noexcept = default;
+
+// Note: impl refers to the state of the object that owns it, so it is never transferred
+RSParser::RSParser(RSParser&& rhs) noexcept
+  : state{ std::move(rhs.state) }, impl{ std::make_unique<RSParserImpl>(&state) } {}
+
+RSParser& RSParser::operator=(RSParser&& rhs) noexcept {
+  if (this != &rhs) {
+    state = std::move(rhs.state);
+  }
+  return *this;
+}
 
 bool RSParser::Parse(TokenStream input) {
   state.NewInput(&input); // Note: using reference to function scoped object
